@@ -4,19 +4,19 @@ Import ListNotations.
 From Zap Require Import Base.Wire Enc.Bytes Enc.Fields Enc.JsonEnc Enc.JsonParse Enc.WireEnc Enc.JsonAst Enc.Wf Enc.Console
   Enc.Parse3 Enc.Parse4 Enc.ConsoleProof C16.Model.
 
-Theorem wire_thm i : wf i = true ->
-  owf_ctxs (ec_ctxs (dec_case i)) -> owf_flds (ec_fs (dec_case i)) ->
-  spec i (model i) = true.
+Theorem wire_thm i : wf i = true -> spec i (model i) = true.
 Proof.
-  unfold wf, spec, model. intros Hw Hc Hf.
+  unfold wf, spec, model. intros Hw.
   apply andb_true_iff in Hw as [Hw We]. apply andb_true_iff in Hw as [Wc Wf'].
   cbn [sx_l]. rewrite (console_shape _ _ _ _ Wc Wf'), (proj2 (bytes_eqb_eq _ _) eq_refl). cbn [andb].
   set (ec := dec_case i) in *. set (c := ec_cfg ec).
-  pose proof (tpre_close _ (ev_flds_pre c eq_refl (ec_fs ec) Hf _ (with_chain_pre c eq_refl (ec_ctxs ec) Hc))) as Hp.
+  pose proof (tpre_close _ (ev_flds_pre c eq_refl (ec_fs ec) (wf_owf_flds _ Wf') _ (with_chain_pre c eq_refl (ec_ctxs ec) (wf_owf_ctxs _ Wc)))) as Hp.
   destruct (close (ev_flds c (ec_fs ec) (ev_with_chain c (ec_ctxs ec)))) as [|m r] eqn:E; [reflexivity|].
   destruct (context_same _ Hp) as [H1 H2]. rewrite H1, H2. reflexivity.
 Qed.
 
-Lemma ctx_members c : q_layout_escaped c = true -> forall ctxs fs, owf_ctxs ctxs -> owf_flds fs ->
+Lemma ctx_members c : q_layout_escaped c = true -> forall ctxs fs, forallb wf_flds ctxs = true -> wf_flds fs = true ->
   tpre (TObj (close (ev_flds c fs (ev_with_chain c ctxs)))).
-Proof. intros Hl ctxs fs Hc Hf. apply tpre_close. apply ev_flds_pre; [exact Hl|exact Hf|]. now apply with_chain_pre. Qed.
+Proof.
+  intros Hl ctxs fs Hc Hf. apply tpre_close. apply ev_flds_pre; [exact Hl|now apply wf_owf_flds|]. apply with_chain_pre; [exact Hl|now apply wf_owf_ctxs].
+Qed.
